@@ -17,6 +17,8 @@ RULES = {
              "and is an EncodeError/CodecError; callers do not translate it",
     "R15.4": "bracket matching tracks nesting depth",
     "R15.5": "parsing keeps no state between calls (no module/class-level caches)",
+    "R15.6": "no token is silently dropped: parse() either always returns an empty remainder or "
+             "every caller (the root included) rejects a non-empty one",
     "R15.3": "guarded destructuring: every sequence destructuring / pop is dominated by a length "
              "test of the same list that exits on empty",
 }
@@ -226,6 +228,7 @@ def run(chk: Check) -> None:
                    "ValueError/IndexError would escape instead of TypeNameError" % (g.qualname, lst), 2)
     chk.floor("R15.3", "destructuring / pop sites", n_d, 3)
     bracket_matching(chk, "R15.4")
+    _remainder(chk, f, inner)
     from .purity import codec_state
     codec_state(chk, "R15.5")
 
@@ -278,3 +281,47 @@ def bracket_matching(chk: Check, rule: str) -> None:
            "the closing '>' of a parameter list is not located with nesting awareness (%s): a type "
            "such as tuple<sequence<string>,sequence<int8_t>> is split at the wrong bracket and "
            "rejected or mis-parsed" % how, 3)
+
+
+def _remainder(chk: Check, f, inner) -> None:
+    g = inner.get("parse")
+    if g is None:
+        return
+    rets = [r for r in walk_no_nested(g.node) if isinstance(r, ast.Return) and r.value is not None]
+    always_empty = True
+    for r in rets:
+        v = r.value
+        if isinstance(v, ast.Call) and attr_path(v.func) == ("parse",):
+            continue      # tail call: inherits the callee's remainder
+        if not (isinstance(v, ast.Tuple) and len(v.elts) == 2):
+            always_empty = False
+            continue
+        second = v.elts[1]
+        if not ((isinstance(second, (ast.List, ast.Tuple)) and not second.elts)):
+            always_empty = False
+    if always_empty:
+        chk.ob("R15.6", "Serialization._parse_type:no-dropped-tokens", True, g.loc(),
+               "parse() never returns leftover tokens", 2)
+        return
+    # otherwise every call site must look at the remainder
+    unchecked = []
+    for h in [f, g]:
+        for c in walk_no_nested(h.node):
+            if isinstance(c, ast.Call) and attr_path(c.func) == ("parse",):
+                par = getattr(c, "_parent", None)
+                if isinstance(par, ast.Return):
+                    continue
+                ok = False
+                if isinstance(par, ast.Assign) and isinstance(par.targets[0], ast.Tuple) and \
+                        len(par.targets[0].elts) == 2 and isinstance(par.targets[0].elts[1], ast.Name):
+                    rem = par.targets[0].elts[1].id
+                    ok = any(isinstance(t, ast.Compare) and rem in unparse(t) and "len(" in unparse(t)
+                             for t in walk_no_nested(h.node)) or \
+                        any(isinstance(t, ast.If) and rem in unparse(t.test) for t in walk_no_nested(h.node))
+                if not ok:
+                    unchecked.append(c)
+    chk.ob("R15.6", "Serialization._parse_type:no-dropped-tokens", not unchecked,
+           (f.loc(unchecked[0]) if unchecked else g.loc()),
+           "parse() can return unparsed tokens and a caller (%s) ignores them: trailing junk such as "
+           "'a<b>>' is accepted and dropped" % (unparse(getattr(unchecked[0], "_parent", unchecked[0]))[:60]
+                                                  if unchecked else ""), 2)
